@@ -33,7 +33,19 @@ class Driver:
         self.p = subprocess.Popen(["lake", "env", "lean", "--run", "Capella/Driver/Accessor.lean"], cwd=common.LEAN,
                                   stdin=subprocess.PIPE, stdout=subprocess.PIPE, stderr=subprocess.PIPE, text=True, env=env, bufsize=1)
 
+    TIMES: dict = {}
+
     def ask(self, req: dict) -> dict:
+        import time as _t
+
+        t0 = _t.time()
+        try:
+            return self._ask(req)
+        finally:
+            k = req.get("op", "?")
+            Driver.TIMES[k] = round(Driver.TIMES.get(k, 0.0) + _t.time() - t0, 2)
+
+    def _ask(self, req: dict) -> dict:
         if self.p.poll() is not None:
             raise common.InfraError(f"accessor driver died: {self.p.stderr.read()[-1500:]}")
         self.p.stdin.write(json.dumps(req, ensure_ascii=False, separators=(",", ":")) + "\n")
@@ -171,7 +183,8 @@ class AccessorTie:
         self.load(model)
         self.call = None
         self.fake = FAKE_NID0
-        self.dump(("load",))
+        if not getattr(self, "keep_open", False):
+            self.dump(("load",))   # translator round trip of the state transfer
 
     # ------------------------------------------------------------ per step
 
@@ -180,10 +193,15 @@ class AccessorTie:
         if self.drv is None:
             return
         try:
-            self.call = self.translate(st)
+            call = self.translate(st)
         except Exception as e:  # noqa: BLE001 - a step the translation does not understand is skipped, visibly
             self.skip(f"translate:{type(e).__name__}")
-            self.call = None
+            call = None
+        self.arm(model, call)
+
+    def arm(self, model, call):
+        """remember the API call about to be made and record the uuids `generate_uuid` hands out meanwhile"""
+        self.call = call
         loader = model._loader
         self.uuid_calls: list[tuple[str | None, str]] = []
         orig = type(loader).generate_uuid
@@ -273,7 +291,7 @@ class AccessorTie:
             why = "untranslated" if call is None else call["_decline"]
             if rec.step.op != "noop":
                 self.decline(f"harness:{why}")
-                self.resync(model)
+                self.catch_up(rec, model)
             return
         draws = [r for w, r in self.uuid_calls if not w]
         fresh = []
@@ -327,6 +345,37 @@ class AccessorTie:
     def resync(self, model):
         self.stats["resyncs"] += 1
         self.load(model)
+
+    INDEX_ATTRS = ("id", "uid", ol.XMI_ID, "href", XSI_TYPE, ol.XMI_TYPE)
+
+    def catch_up(self, rec, model):
+        """after a step the model did not see: transfer the state again – cheaply when only attributes changed"""
+        same = all([r["nid"] for r in rec.before.get(f, [])] == [r["nid"] for r in rec.after.get(f, [])] for f in self.fi)
+        if not same or set(self.fi) != {str(f) for f, tr in model._loader.trees.items() if tr.fragment_type.name != "VISUAL"}:
+            self.resync(model)
+            return
+        for f in self.fi:
+            for r in rec.after.get(f, []):
+                now = tuple(sorted(r["el"].attrib.items()))
+                was = self.attrs.get(r["nid"])
+                if was != now:
+                    changed = {k for k, _ in set(was or ()) ^ set(now)}
+                    if changed & set(self.INDEX_ATTRS):
+                        self.resync(model)
+                        return
+                    self.drv.ask({"op": "acc.patch", "nid": r["nid"], "attrs": [[k, v] for k, v in r["el"].attrib.items()]})
+                    self.attrs[r["nid"]] = now
+                    self.stats["patches"] = self.stats.get("patches", 0) + 1
+
+    def light_scan(self, model):
+        """like objlayer.raw_scan, for the fragments this tie transfers only"""
+        out = {}
+        ol._KEEP.append(out)
+        for name, tr in self.frag_list(model._loader):
+            ida = ol.frag_idattrs(name)
+            out[name] = [{"nid": id(e), "ids": [e.get(a) for a in ida if e.get(a) is not None], "el": e}
+                         for e in tr.root.iter() if isinstance(e.tag, str)]
+        return out
 
     def register_new(self, rec):
         for f in rec.after:
@@ -453,9 +502,50 @@ class AccessorTie:
     def end(self, model):
         if self.drv is None:
             return
+        if getattr(self, "keep_open", False) and not getattr(self, "final", False):
+            return
         self.dump(("end",))
-        self.drv.close()
-        self.drv = None
+        self.close()
+
+    def close(self):
+        if self.drv is not None:
+            self.drv.close()
+            self.drv = None
+
+    # ------------------------------------------------------------ calls made by a check itself (not by objops)
+
+    def wrap(self, model, fn, call, opname: str, rel=None):
+        """fn with the accessor tie around it: `call` is the API-level description of what fn does"""
+        import objops
+        import objsession as S
+
+        self.manual_i = getattr(self, "manual_i", 10**5) + 1
+
+        def run():
+            if self.drv is None:
+                return fn()
+            before = self.light_scan(model)
+            self.arm(model, call)
+            outcome = "ok"
+            try:
+                return fn()
+            except (KeyboardInterrupt, SystemExit):
+                raise
+            except BaseException as e:  # noqa: BLE001
+                outcome = type(e).__name__
+                raise
+            finally:
+                after = self.light_scan(model)
+                st = objops.Step(opname, rel, {}, lambda: None)
+                self.step(S.StepRecord(self.manual_i, st, outcome, before, after), model)
+
+        return run
+
+    def rel_call(self, rel, m: str, **kw) -> dict | None:
+        rk = row_key(rel.owner, rel.attr)
+        if rk is None:
+            return {"_decline": "no-row"}
+        return dict({"cls": rk[0], "attr": rk[1], "owner": id(rel.owner._element), "m": m}, **kw)
 
 
 _ = pathlib
